@@ -144,11 +144,18 @@ fn receive_and_check(rep: &mut Report, channel: u32, cmd_idx: usize, payload: &[
                 resent = Some((c.writes, ok));
             }
         }
-        // nothing may be left to deliver: a stray continuation afterwards yields nothing
-        let mut stray = vec![0u8; 64];
-        stray[..4].copy_from_slice(&packets[0][..4]);
-        stray[4] = 0;
-        let after = h.handle_packet(&stray).is_some();
+        // nothing may be left to deliver: stray continuations afterwards yield nothing, whatever their
+        // sequence number (0, the next one after the finished message, the one after, its last)
+        let n_cont = packets.len() as u8 - 1;
+        let mut after = false;
+        for seq in [0u8, n_cont, n_cont.wrapping_add(1) & 0x7f, n_cont.saturating_sub(1), 1] {
+            for _ in 0..(packets.len().min(3)) {
+                let mut stray = vec![0x5Au8; 64];
+                stray[..4].copy_from_slice(&packets[0][..4]);
+                stray[4] = seq & 0x7f;
+                after |= h.handle_packet(&stray).is_some();
+            }
+        }
         (out, after, resent)
     });
     match r {
